@@ -23,7 +23,7 @@ Inductive ap_result :=
 | AP_nouser                          (* local domain, no such user: 550 written, result -1 *)
 | AP_ok (addr : bytes) (more : option bytes) (cls : rclass).
 
-Inductive ext_result := Ext_ok (thisbytes : N) (bonus : nat) | Ext_einval | Ext_enoexec.
+Inductive ext_result := Ext_ok (thisbytes : N) (bonus : nat) (body8 : option bool) | Ext_einval | Ext_enoexec.
 Inductive qq_outcome :=
 | QQ_ok                              (* reads everything, exits 0 *)
 | QQ_exit (code : nat)               (* reads everything, exits with a non-zero code *)
@@ -40,6 +40,7 @@ Record oracles := {
   o_qq : nat -> qq_outcome;                       (* behaviour of the k-th qmail-queue invocation *)
   o_databytes : N;                                (* control/databytes, 0 = unlimited *)
   o_liphost : bytes;                              (* control/localiphost (default: control/me) *)
+  o_check2822 : bool;                             (* the recipients' check_strict_rfc2822 setting (uniform in the harness: global filterconf) *)
   o_trace : bytes -> bytes -> bool -> bytes -> N -> bytes   (* Received-SPF + Received lines: helo, sender, esmtp, first recipient, relayclient *)
 }.
 
@@ -56,7 +57,9 @@ Record sstate := {
   badcmds : nat;
   relayclient : N;
   thisbytes : N;
-  qcount : nat
+  qcount : nat;
+  check2822 : N;                      (* xmitstat.check2822: 2 = not decided yet, 1 = every recipient so far wants the check, 0 = off *)
+  datatype : bool                     (* xmitstat.datatype: the client declared 8-bit data *)
 }.
 
 (** Ghost notes: not observable on the wire; they mark, inside the event
@@ -82,15 +85,15 @@ Inductive event :=
 Definition set_rd (s : sstate) (r : rstate) : sstate :=
   {| rd := r; comstate := comstate s; esmtp := esmtp s; helostr := helostr s; mailfrom := mailfrom s; rcpts := rcpts s;
      rcptcount := rcptcount s; goodrcpt := goodrcpt s; badcmds := badcmds s; relayclient := relayclient s;
-     thisbytes := thisbytes s; qcount := qcount s |}.
+     thisbytes := thisbytes s; qcount := qcount s; check2822 := check2822 s; datatype := datatype s |}.
 Definition set_comstate (s : sstate) (c : N) : sstate :=
   {| rd := rd s; comstate := c; esmtp := esmtp s; helostr := helostr s; mailfrom := mailfrom s; rcpts := rcpts s;
      rcptcount := rcptcount s; goodrcpt := goodrcpt s; badcmds := badcmds s; relayclient := relayclient s;
-     thisbytes := thisbytes s; qcount := qcount s |}.
+     thisbytes := thisbytes s; qcount := qcount s; check2822 := check2822 s; datatype := datatype s |}.
 Definition set_badcmds (s : sstate) (b : nat) : sstate :=
   {| rd := rd s; comstate := comstate s; esmtp := esmtp s; helostr := helostr s; mailfrom := mailfrom s; rcpts := rcpts s;
      rcptcount := rcptcount s; goodrcpt := goodrcpt s; badcmds := b; relayclient := relayclient s;
-     thisbytes := thisbytes s; qcount := qcount s |}.
+     thisbytes := thisbytes s; qcount := qcount s; check2822 := check2822 s; datatype := datatype s |}.
 
 Definition helo_state (e : bool) : N := if e then 16%N else 8%N.      (* 0x008 << esmtp *)
 Definition TRANS_STATES : N := 2144%N.                                 (* 0x0860: MAIL, RCPT, BDAT *)
@@ -100,7 +103,7 @@ Definition freedata (s : sstate) : sstate :=
   {| rd := rd s;
      comstate := if N.eqb (N.land (comstate s) TRANS_STATES) 0 then comstate s else helo_state (esmtp s);
      esmtp := esmtp s; helostr := helostr s; mailfrom := []; rcpts := []; rcptcount := 0; goodrcpt := 0;
-     badcmds := badcmds s; relayclient := relayclient s; thisbytes := thisbytes s; qcount := qcount s |}.
+     badcmds := badcmds s; relayclient := relayclient s; thisbytes := thisbytes s; qcount := qcount s; check2822 := check2822 s; datatype := datatype s |}.
 
 (** data_pending(): a byte waiting in the current segment is pulled into lineinn *)
 Definition data_pending (s : sstate) : bool * sstate :=
@@ -171,6 +174,7 @@ Inductive dend :=
 | D_loop (linein : bytes) (seen : list bytes)             (* too many hops: drain, 554 *)
 | D_readerr (e2big : bool) (linein : bytes)    (* net_read failed: drain, 500 / E2BIG; linein keeps the previous line *)
 | D_wfail (linein : bytes)                     (* a write to qmail-queue failed (EPIPE): err_write *)
+| D_reject (code : N) (linein : bytes)         (* errmsgs[] set: RfC 2822 header check (550) or Delivered-To: loop (554): drain, reply *)
 | D_dead | D_stuck.
 
 (** [seen] is a ghost: the data lines written to the queue so far, oldest first; it does not
@@ -190,58 +194,93 @@ Definition dread (r : rstate) (prev : bytes) : (dend + bytes) * rstate :=
 Definition dfinal (o : oracles) (l msg : bytes) (msgsize : N) (seen : list bytes) : dend :=
   if N.ltb (maxbytes o) msgsize then D_toobig l seen else D_eod msg msgsize seen.
 
+(** what smtp_data needs to know besides the reader: does the next write to qmail-queue fail, is the RfC 2822 header
+    check on (xmitstat.check2822 & 1), did the client declare 8-bit data, the accepted recipients (Delivered-To:) *)
+Record dcfg := { d_wfail : bool; d_chk : bool; d_dt : bool; d_rcpts : list bytes }.
+
+Definition has8 (l : bytes) : bool := existsb (fun b => N.leb 128 b) l.
+(** check_rfc822_headers(): Date: / From: / Message-Id: (bits 1, 2, 4) *)
+Definition known_hdr (l : bytes) : option N :=
+  if strncaseeq [68; 97; 116; 101; 58]%N l then Some 1%N
+  else if strncaseeq [70; 114; 111; 109; 58]%N l then Some 2%N
+  else if strncaseeq [77; 101; 115; 115; 97; 103; 101; 45; 73; 100; 58]%N l then Some 4%N
+  else None.
+Definition s_delivered_to : bytes := [68; 101; 108; 105; 118; 101; 114; 101; 100; 45; 84; 111; 58]%N.   (* "Delivered-To:" *)
+Definition is_delivered_to (rc : list bytes) (l : bytes) : bool :=
+  Nat.leb 20 (length l) && bytes_eqb (firstn 13 l) s_delivered_to && existsb (bytes_eqb (skipn 14 l)) rc.
+
 (** the body loop: [l] is the line in linein *)
-Fixpoint body_loop (fuel : nat) (o : oracles) (wfail : bool) (r : rstate) (l msg : bytes) (msgsize : N) (seen : list bytes)
+Fixpoint body_loop (fuel : nat) (o : oracles) (dc : dcfg) (r : rstate) (l msg : bytes) (msgsize : N) (seen : list bytes)
   : dend * rstate :=
   match fuel with
   | O => (D_stuck, r)
   | S f =>
       if is_dot l || N.ltb (maxbytes o) msgsize then (dfinal o l msg msgsize seen, r)
-      else if wfail then (D_wfail l, r)
+      else if d_chk dc && negb (d_dt dc) && has8 l then (D_reject 550 l, r)
+      else if d_wfail dc then (D_wfail l, r)
       else
         let msg' := msg ++ unstuff l ++ [LF] in
         let sz' := (msgsize + N.of_nat (length (unstuff l)) + 2)%N in
         match dread r l with
         | (inl d, r') => (d, r')
-        | (inr l', r') => body_loop f o wfail r' l' msg' sz' (seen ++ [l])
+        | (inr l', r') => body_loop f o dc r' l' msg' sz' (seen ++ [l])
         end
   end.
 
+(** the header checks of one line that does not start with a dot: None = refused with 550,
+    Some (flags, flagr): new header flags, "may be a Received: or Delivered-To: line" *)
+Definition hdr_check (dc : dcfg) (hf : N) (l : bytes) : option (N * bool) :=
+  if negb (d_chk dc) then Some (hf, true)
+  else if has8 l then None
+  else match known_hdr l with
+       | Some bit => if N.eqb (N.land hf bit) 0 then Some (N.lor hf bit, false) else None
+       | None => Some (hf, true)
+       end.
+
 (** the header loop, then the empty line and the body *)
-Fixpoint hdr_loop (fuel : nat) (o : oracles) (wfail : bool) (r : rstate) (l msg : bytes) (msgsize : N) (hops : nat) (seen : list bytes)
-  : dend * rstate :=
+Fixpoint hdr_loop (fuel : nat) (o : oracles) (dc : dcfg) (r : rstate) (l msg : bytes) (msgsize : N) (hops : nat) (hf : N)
+  (seen : list bytes) : dend * rstate :=
   match fuel with
   | O => (D_stuck, r)
   | S f =>
       if is_dot l || N.ltb (maxbytes o) msgsize || Nat.eqb (length l) 0 || Nat.ltb MAXHOPS hops then
+        (* Date: and From: are required when the check is on *)
+        if d_chk dc && (N.eqb (N.land hf 1) 0 || N.eqb (N.land hf 2) 0) then (D_reject 550 l, r)
+        else
         match l with
         | [] =>
             (* "\n" is written, msgsize += 2, next line, body loop *)
-            if wfail then (D_wfail l, r) else
+            if d_wfail dc then (D_wfail l, r) else
             match dread r l with
             | (inl d, r') => (d, r')
-            | (inr l', r') => body_loop f o wfail r' l' (msg ++ [LF]) (msgsize + 2)%N (seen ++ [l])
+            | (inr l', r') => body_loop f o dc r' l' (msg ++ [LF]) (msgsize + 2)%N (seen ++ [l])
             end
         | _ => (dfinal o l msg msgsize seen, r)
         end
       else
-        let rcv := negb (N.eqb (nth 0 l 0%N) DOT) && is_received l in
-        let hops' := if rcv then S hops else hops in
-        if rcv && Nat.ltb MAXHOPS hops' then (D_loop l seen, r)
-        else if wfail then (D_wfail l, r)
-        else
-          let msg' := msg ++ unstuff l ++ [LF] in
-          let sz' := (msgsize + N.of_nat (length (unstuff l)) + 2)%N in
-          match dread r l with
-          | (inl d, r') => (d, r')
-          | (inr l', r') => hdr_loop f o wfail r' l' msg' sz' hops' (seen ++ [l])
-          end
+        let dotl := N.eqb (nth 0 l 0%N) DOT in
+        match (if dotl then Some (hf, false) else hdr_check dc hf l) with
+        | None => (D_reject 550 l, r)
+        | Some (hf', flagr) =>
+            let rcv := negb dotl && flagr && is_received l in
+            let hops' := if rcv then S hops else hops in
+            if rcv && Nat.ltb MAXHOPS hops' then (D_loop l seen, r)
+            else if negb dotl && flagr && negb (is_received l) && is_delivered_to (d_rcpts dc) l then (D_reject 554 l, r)
+            else if d_wfail dc then (D_wfail l, r)
+            else
+              let msg' := msg ++ unstuff l ++ [LF] in
+              let sz' := (msgsize + N.of_nat (length (unstuff l)) + 2)%N in
+              match dread r l with
+              | (inl d, r') => (d, r')
+              | (inr l', r') => hdr_loop f o dc r' l' msg' sz' hops' hf' (seen ++ [l])
+              end
+        end
   end.
 
-Definition data_loop (fuel : nat) (o : oracles) (wfail : bool) (r : rstate) (trace : bytes) : dend * rstate :=
+Definition data_loop (fuel : nat) (o : oracles) (dc : dcfg) (r : rstate) (trace : bytes) : dend * rstate :=
   match dread r [] with
   | (inl d, r') => (d, r')
-  | (inr l, r') => hdr_loop fuel o wfail r' l trace 0%N 0 []
+  | (inr l, r') => hdr_loop fuel o dc r' l trace 0%N 0 0%N []
   end.
 
 (** eat everything up to the line with the single dot (loop_data / err_write); [prev_dot]: linein already is "." *)
@@ -290,7 +329,7 @@ Definition envelope (liphost from : bytes) (rc : list (bytes * bool)) : bytes :=
 Definition set_relayclient (s : sstate) (rc : N) : sstate :=
   {| rd := rd s; comstate := comstate s; esmtp := esmtp s; helostr := helostr s; mailfrom := mailfrom s;
      rcpts := rcpts s; rcptcount := rcptcount s; goodrcpt := goodrcpt s; badcmds := badcmds s;
-     relayclient := rc; thisbytes := thisbytes s; qcount := qcount s |}.
+     relayclient := rc; thisbytes := thisbytes s; qcount := qcount s; check2822 := check2822 s; datatype := datatype s |}.
 
 (** is_authenticated() for an address outside rcpthosts: the relay list is looked up once and the
     outcome is cached in relayclient (1 allowed, 2 not); it is set to 2 BEFORE the result is
@@ -336,12 +375,15 @@ Definition h_rcpt (o : oracles) (s : sstate) (arg : bytes) : list event * hres *
               ([Note NWithdraw; Reply 550], HEBOGUS,
                tarpit {| rd := rd s1; comstate := comstate s1; esmtp := esmtp s1; helostr := helostr s1; mailfrom := mailfrom s1;
                          rcpts := rc'; rcptcount := S (rcptcount s1); goodrcpt := 0; badcmds := badcmds s1;
-                         relayclient := relayclient s1; thisbytes := thisbytes s1; qcount := qcount s1 |})
+                         relayclient := relayclient s1; thisbytes := thisbytes s1; qcount := qcount s1; check2822 := check2822 s1; datatype := datatype s1 |})
             else
               ([Note (NRcpt addr cls); Reply 250], H0,
                {| rd := rd s1; comstate := comstate s1; esmtp := esmtp s1; helostr := helostr s1; mailfrom := mailfrom s1;
                   rcpts := rcpts s1 ++ [(addr, true)]; rcptcount := S (rcptcount s1); goodrcpt := S (goodrcpt s1);
-                  badcmds := badcmds s1; relayclient := relayclient s1; thisbytes := thisbytes s1; qcount := qcount s1 |})
+                  badcmds := badcmds s1; relayclient := relayclient s1; thisbytes := thisbytes s1; qcount := qcount s1;
+                  (* cb_check2822: one recipient without the setting switches the check off for the connection *)
+                  check2822 := if N.eqb (check2822 s1) 0 then 0%N else if o_check2822 o then 1%N else 0%N;
+                  datatype := datatype s1 |})
         end
       end
   end
@@ -351,7 +393,7 @@ Definition h_from (o : oracles) (s : sstate) (arg : bytes) (linelen : nat) : lis
   let clear (s : sstate) :=
     {| rd := rd s; comstate := comstate s; esmtp := esmtp s; helostr := helostr s; mailfrom := []; rcpts := rcpts s;
        rcptcount := rcptcount s; goodrcpt := goodrcpt s; badcmds := badcmds s; relayclient := relayclient s;
-       thisbytes := 0%N; qcount := qcount s |} in
+       thisbytes := 0%N; qcount := qcount s; check2822 := check2822 s; datatype := false |} in
   let s := clear s in
   match o_addr o false arg with
   | AP_nobracket => ([], HEINVAL, s)
@@ -361,17 +403,18 @@ Definition h_from (o : oracles) (s : sstate) (arg : bytes) (linelen : nat) : lis
       match (if esmtp s then None else more) with
       | Some _ => ([], HEINVAL, s)
       | None =>
-          match (match more with Some m => o_ext o m | None => Ext_ok 0%N 0 end) with
+          match (match more with Some m => o_ext o m | None => Ext_ok 0%N 0 None end) with
           | Ext_einval => ([], HEINVAL, s)
           | Ext_enoexec => ([], HENOEXEC, s)
-          | Ext_ok tb bonus =>
+          | Ext_ok tb bonus body8 =>
               if Nat.ltb (CMD_LINE_MAX + bonus) linelen then ([], HE2BIG, s)
               else if negb (N.eqb (o_databytes o) 0) && N.ltb (o_databytes o) tb then ([Reply 452], HEDONE, s)
               else
                 ([Note (NMail addr); Reply 250], H0,
                  {| rd := rd s; comstate := comstate s; esmtp := esmtp s; helostr := helostr s; mailfrom := addr; rcpts := rcpts s;
                     rcptcount := rcptcount s; goodrcpt := 0; badcmds := badcmds s; relayclient := relayclient s;
-                    thisbytes := tb; qcount := qcount s |})
+                    thisbytes := tb; qcount := qcount s; check2822 := check2822 s;
+                    datatype := match body8 with Some b => b | None => false end |})
           end
       end
   end.
@@ -386,11 +429,13 @@ Definition h_data (fuel : nat) (o : oracles) (s : sstate) : list event * hres * 
         let k := qcount s in
         let s := {| rd := rd s; comstate := comstate s; esmtp := esmtp s; helostr := helostr s; mailfrom := mailfrom s;
                     rcpts := rcpts s; rcptcount := rcptcount s; goodrcpt := goodrcpt s; badcmds := badcmds s;
-                    relayclient := relayclient s; thisbytes := thisbytes s; qcount := S k |} in
+                    relayclient := relayclient s; thisbytes := thisbytes s; qcount := S k; check2822 := check2822 s; datatype := datatype s |} in
         let first := match rcpts s with (a, _) :: _ => a | [] => [] end in
         let trace := o_trace o (helostr s) (mailfrom s) (esmtp s) first (relayclient s) in
-        let wfail := match o_qq o k with QQ_die_early => true | _ => false end in
-        let '(de, r') := data_loop fuel o wfail (rd s) trace in
+        let dc := {| d_wfail := match o_qq o k with QQ_die_early => true | _ => false end;
+                     d_chk := N.eqb (check2822 s) 1; d_dt := datatype s;
+                     d_rcpts := map fst (filter (fun x => snd x) (rcpts s)) |} in
+        let '(de, r') := data_loop fuel o dc (rd s) trace in
         let s' := set_rd s r' in
         match de with
         | D_dead => ([Note (NData k); Reply 354], HEXIT, s')
@@ -418,6 +463,9 @@ Definition h_data (fuel : nat) (o : oracles) (s : sstate) : list event * hres * 
         | D_loop l _ =>
             let '(alive, r2) := drain fuel r' l in
             if alive then ([Note (NData k); Reply 354; Note NBoundary; Reply 554], HEDONE, freedata (set_rd s' r2)) else ([Note (NData k); Reply 354], HEXIT, set_rd s' r2)
+        | D_reject code l =>
+            let '(alive, r2) := drain fuel r' l in
+            if alive then ([Note (NData k); Reply 354; Note NBoundary; Reply code], HEDONE, freedata (set_rd s' r2)) else ([Note (NData k); Reply 354], HEXIT, set_rd s' r2)
         | D_readerr big l =>
             let '(alive, r2) := drain fuel r' l in
             if negb alive then ([Note (NData k); Reply 354], HEXIT, set_rd s' r2)
@@ -471,12 +519,12 @@ Definition run_handler (f : nat) (o : oracles) (s : sstate) (l : bytes) (namelen
       let s' := freedata s in
       let s' := {| rd := rd s'; comstate := comstate s'; esmtp := false; helostr := helostr s'; mailfrom := mailfrom s';
                    rcpts := rcpts s'; rcptcount := rcptcount s'; goodrcpt := goodrcpt s'; badcmds := badcmds s';
-                   relayclient := relayclient s'; thisbytes := thisbytes s'; qcount := qcount s' |} in
+                   relayclient := relayclient s'; thisbytes := thisbytes s'; qcount := qcount s'; check2822 := check2822 s'; datatype := false |} in
       if o_helo o (skipn 5 l) then
         ([Note NBoundary; Note NHelo; Reply 250], H0,
          {| rd := rd s'; comstate := comstate s'; esmtp := false; helostr := skipn 5 l; mailfrom := mailfrom s';
             rcpts := rcpts s'; rcptcount := rcptcount s'; goodrcpt := goodrcpt s'; badcmds := badcmds s';
-            relayclient := relayclient s'; thisbytes := thisbytes s'; qcount := qcount s' |}, st)
+            relayclient := relayclient s'; thisbytes := thisbytes s'; qcount := qcount s'; check2822 := check2822 s'; datatype := datatype s' |}, st)
       else ([Note NBoundary], HEINVAL, s', st)
   | 4 => (* smtp_ehlo *)
       let s' := freedata s in
@@ -484,7 +532,7 @@ Definition run_handler (f : nat) (o : oracles) (s : sstate) (l : bytes) (namelen
         ([Note NBoundary; Note NHelo; Reply 250], H0,
          {| rd := rd s'; comstate := comstate s'; esmtp := true; helostr := skipn 5 l; mailfrom := mailfrom s';
             rcpts := rcpts s'; rcptcount := rcptcount s'; goodrcpt := goodrcpt s'; badcmds := badcmds s';
-            relayclient := relayclient s'; thisbytes := thisbytes s'; qcount := qcount s' |}, st)
+            relayclient := relayclient s'; thisbytes := thisbytes s'; qcount := qcount s'; check2822 := check2822 s'; datatype := datatype s' |}, st)
       else ([Note NBoundary], HEINVAL, s', st)
   | 5 => let '(e, h, s') := h_from o s rest_ (length l) in (e, h, s', st)
   | 6 => let '(e, h, s') := h_rcpt o s rest_ in (e, h, s', st)
@@ -558,7 +606,7 @@ Fixpoint serve (fuel : nat) (o : oracles) (s : sstate) : list event :=
 Definition init_state (chunks : list bytes) : sstate :=
   {| rd := {| inn := []; en := {| cur := []; future := chunks |} |};
      comstate := 1%N; esmtp := false; helostr := []; mailfrom := []; rcpts := []; rcptcount := 0; goodrcpt := 0;
-     badcmds := 0; relayclient := 0%N; thisbytes := 0%N; qcount := 0 |}.
+     badcmds := 0; relayclient := 0%N; thisbytes := 0%N; qcount := 0; check2822 := 2%N; datatype := false |}.
 
 Definition session_fuel (chunks : list bytes) : nat := S (S (length (concat chunks))).
 
